@@ -57,6 +57,7 @@ func (a av) String() string {
 // mergeEval evaluates one merge function for field F under the assumption nilOf[param idx].
 type mergeEval struct {
 	F       *types.Var
+	dst     int          // in-place merge: index of the parameter that is filled (-1 otherwise)
 	nilOf   map[int]bool // parameter index → its field F is nil
 	steps   int
 	aborted bool
@@ -100,14 +101,18 @@ func (m *mergeEval) run(fn *ssa.Function, args []av, top bool, depth int) (resul
 	type state struct {
 		env    map[ssa.Value]av
 		fstate map[*ssa.Alloc]av // value of field F of each local object
+		pstate map[int]av        // value of field F of a parameter object after stores through it (in-place merge)
 	}
 	clone := func(s state) state {
-		n := state{map[ssa.Value]av{}, map[*ssa.Alloc]av{}}
+		n := state{map[ssa.Value]av{}, map[*ssa.Alloc]av{}, map[int]av{}}
 		for k, v := range s.env {
 			n.env[k] = v
 		}
 		for k, v := range s.fstate {
 			n.fstate[k] = v
+		}
+		for k, v := range s.pstate {
+			n.pstate[k] = v
 		}
 		return n
 	}
@@ -138,6 +143,11 @@ func (m *mergeEval) run(fn *ssa.Function, args []av, top bool, depth int) (resul
 					base := eval(s, fa.X)
 					switch base.kind {
 					case avParam:
+						if fv == m.F {
+							if st, ok := s.pstate[base.idx]; ok {
+								return st
+							}
+						}
 						return m.norm(av{kind: avField, idx: base.idx, field: fv})
 					case avAlloc:
 						if fv == m.F {
@@ -188,6 +198,9 @@ func (m *mergeEval) run(fn *ssa.Function, args []av, top bool, depth int) (resul
 		for k, v := range s.fstate {
 			ks = append(ks, "#"+k.Name()+"="+v.String())
 		}
+		for k, v := range s.pstate {
+			ks = append(ks, fmt.Sprintf("@p%d=%s", k, v.String()))
+		}
 		sort.Strings(ks)
 		key := fmt.Sprintf("%d|%s", b.Index, strings.Join(ks, ","))
 		if memo[key] {
@@ -204,6 +217,9 @@ func (m *mergeEval) run(fn *ssa.Function, args []av, top bool, depth int) (resul
 					base := eval(&s, fa.X)
 					if base.kind == avAlloc && fv == m.F {
 						s.fstate[base.alloc] = m.norm(eval(&s, x.Val))
+					}
+					if base.kind == avParam && fv == m.F {
+						s.pstate[base.idx] = m.norm(eval(&s, x.Val))
 					}
 				} else if base := eval(&s, x.Addr); base.kind == avAlloc {
 					if ld, ok := x.Val.(*ssa.UnOp); ok && ld.Op == token.MUL {
@@ -240,6 +256,14 @@ func (m *mergeEval) run(fn *ssa.Function, args []av, top bool, depth int) (resul
 					s.env[x] = av{}
 				}
 			case *ssa.Return:
+				if len(x.Results) == 0 && top && m.dst >= 0 {
+					// in-place merge: the result is field F of the destination object at return
+					st, ok := s.pstate[m.dst]
+					if !ok {
+						st = m.norm(av{kind: avField, idx: m.dst, field: m.F})
+					}
+					results[st.String()] = st
+				}
 				if len(x.Results) == 1 {
 					rv := eval(&s, retResult(x, 0))
 					if top {
@@ -291,7 +315,7 @@ func (m *mergeEval) run(fn *ssa.Function, args []av, top bool, depth int) (resul
 			}
 		}
 	}
-	walk(fn.Blocks[0], nil, state{map[ssa.Value]av{}, map[*ssa.Alloc]av{}})
+	walk(fn.Blocks[0], nil, state{map[ssa.Value]av{}, map[*ssa.Alloc]av{}, map[int]av{}})
 	return
 }
 
@@ -397,9 +421,38 @@ func ruleMerge(r *Run) {
 	merges := discoverMerges(p)
 	r.Min("merge_functions", len(merges), 2)
 	parentIdx, called, conflict := mergeRoles(p, merges)
+	inPlace := map[*ssa.Function]int{}
+	for _, m := range merges {
+		if d := inPlaceMergeDst(p, m); d >= 0 {
+			// fill-in-place form inherit(dst, ancestor): dst accumulates the nearer definitions (it starts
+			// as the fresh result object and is handed every style of the chain, nearest first), the
+			// other parameter is the ancestor being folded in
+			inPlace[m] = d
+			parentIdx[m] = 1 - d
+			delete(conflict, m)
+			for _, cs := range staticCallSites(p, m) {
+				_ = cs
+				called[m] = true
+			}
+		}
+	}
 	roleViolation := false
 	for _, m := range merges {
 		if !called[m] {
+			continue
+		}
+		if _, ip := inPlace[m]; ip {
+			// the accumulating destination must be a fresh object of the resolving function (not a
+			// registered style's own property bag, which would be modified)
+			okFresh := true
+			for _, cs := range staticCallSites(p, m) {
+				a := cs.Common().Args[inPlace[m]]
+				if _, isAl := stripLoads(a).(*ssa.Alloc); !isAl {
+					okFresh = false
+				}
+			}
+			r.Check("resolve-recursive", shortName(m), m.Pos(), okFresh,
+				shortName(m)+" fills its destination in place from each style of the based-on chain: the destination must be a fresh object built by the resolver (so that every ancestor of the chain is folded into the same result and no registered style is modified)")
 			continue
 		}
 		_, has := parentIdx[m]
@@ -414,9 +467,12 @@ func ruleMerge(r *Run) {
 		if !called[fn] {
 			continue
 		}
+		if _, ip := inPlace[fn]; ip {
+			continue // both arguments are dereferenced: the callers' nil tests are their business
+		}
 		bad := ""
 		for miss := 0; miss < 2; miss++ {
-			ev := &mergeEval{nilOf: map[int]bool{}}
+			ev := &mergeEval{nilOf: map[int]bool{}, dst: -1}
 			args := []av{{kind: avParam, idx: 0}, {kind: avParam, idx: 1}}
 			args[miss] = av{kind: avNil}
 			res := ev.run(fn, args, false, 0)
@@ -452,6 +508,10 @@ func ruleMerge(r *Run) {
 			continue
 		}
 		ci := 1 - pi
+		dstIdx := -1
+		if d, ip := inPlace[fn]; ip {
+			dstIdx = d
+		}
 		for i := 0; i < st.NumFields(); i++ {
 			fv := st.Field(i)
 			if fv.Name() == "XMLName" {
@@ -463,7 +523,7 @@ func ruleMerge(r *Run) {
 			undecided := false
 			for _, cs := range [][2]bool{{false, false}, {false, true}, {true, false}, {true, true}} {
 				cNil, pNil := cs[0], cs[1]
-				ev := &mergeEval{F: fv, nilOf: map[int]bool{ci: cNil, pi: pNil}}
+				ev := &mergeEval{F: fv, nilOf: map[int]bool{ci: cNil, pi: pNil}, dst: dstIdx}
 				args := make([]av, len(fn.Params))
 				for k := range args {
 					args[k] = av{kind: avParam, idx: k}
